@@ -88,14 +88,26 @@ Proof. exact (concat_spec_shape axis (t0 :: rest) v). Qed.
 (* ... and the joining step that value is folded from: at every valid index the element is the left
    operand's where the axis coordinate lies within its extent, otherwise the right operand's at
    that coordinate minus the left extent. C08_concat_element_partial: stated for the two-operand
-   step; its lift to the n-ary "first input whose cumulative extent exceeds i[axis]" form is not
-   stated here -- for n inputs the elements are tied to the code through C08_model_refines_spec *)
+   step; the n-ary form follows as C08_concat_nary_element *)
 Theorem C08_concat_element_partial axis (a b : tensor Z) i :
   valid (tshape (concat2 axis a b)) i ->
   get 0%Z (concat2 axis a b) i =
   if (nth axis i 0 <? nthz (tshape a) axis)%nat then get 0%Z a i
   else get 0%Z b (map (fun k => if Nat.eqb k axis then (nth k i 0 - nthz (tshape a) axis)%nat else nth k i 0%nat) (seq 0 (List.length i))).
 Proof. exact (concat2_element axis a b i). Qed.
+(* n inputs, read from the right: at every valid index the joined value is the LAST input's element
+   where the axis coordinate reaches the sum of all earlier extents (at the coordinate minus that
+   sum), otherwise the element of the join of the earlier inputs; by recursion on the number of
+   inputs this is the ONNX cumulative formula for any number of inputs *)
+Theorem C08_concat_nary_element axis (acc : tensor Z) rest t i :
+  (axis < List.length (tshape acc))%nat ->
+  let join := fold_left (fun acc t => concat2 axis acc (tz t)) in
+  valid (tshape (join (rest ++ [t]) acc)) i ->
+  get 0%Z (join (rest ++ [t]) acc) i =
+  let before := (nthz (tshape acc) axis + sum_extents axis rest)%nat in
+  if (nth axis i 0 <? before)%nat then get 0%Z (join rest acc) i
+  else get 0%Z (tz t) (map (fun k => if Nat.eqb k axis then (nth k i 0 - before)%nat else nth k i 0%nat) (seq 0 (List.length i))).
+Proof. exact (concat_nary_element axis acc rest t i). Qed.
 Print Assumptions C08_concat_spec_shape.
 
 (* the two excluded corners are real disagreements between gorgonia-through-slice.go and S, outside
